@@ -69,6 +69,30 @@ CLAIMED = {
              "Tied to the code by generated fields over all encodings, delimiters and length specifications, with an independent "
              "bit-string reference that uses Python's own codecs.",
         design="§7 C07", technique="Lean 4 proof (on top of C03 lemmas) + correspondence check"),
+    "C05": dict(
+        text="descend_sound + decodes_deterministic + descend_complete: the mirror of the parse_ccsds_packet loop returns exactly "
+             "the outcome of a relational big-step specification with one constructor per outcome of the property (unique valid "
+             "child -> descend; abstract dead end / ambiguity -> unrecognized with the partial data; concrete stop; errors), for "
+             "every container tree and packet; entries_in_order / nested_in_place (mutual structural induction: decoding a "
+             "container is decoding its flattened parameter list, nested references expanded in place); valid_inheritors_filter; "
+             "views. Fuel exhaustion (cyclic inheritance) is the one excluded outcome. Tied to the code by random container "
+             "trees with an encoder steering packets into every node, dead end and overlap; the proved model is the oracle.",
+        design="§7 C05", technique="Lean 4 proof (refinement to a relational spec, mutual induction) + correspondence check"),
+    "C12": dict(
+        text="per_apid (interleaving independence: what an APID sees equals the per-APID group automaton run on its own "
+             "sub-history, by induction on the history), emitted_iff (a group is emitted exactly when closed by LAST with "
+             "consecutive counts mod 16384; consecutive_spec), combined_bytes, at_most_once (counting invariant: no raw packet "
+             "contributes to two outputs), drop_warnings. Tied to the code by exhaustive short histories over flags x APIDs x "
+             "sequence relations, random long ones, wrap-around groups, and a reference automaton as oracle.",
+        design="§7 C12", technique="Lean 4 proof (simulation + counting invariant) + correspondence check"),
+    "C14": dict(
+        text="cursor_sum (after a successful parse the cursor is the start plus the sum of the widths of the decoded fields, each "
+             "computed in the state where it is decoded; bytes untouched), monotone / monotone_path, negative_length_fails, "
+             "binary_past_end_fails, clean_iff / mismatch_flagged (delivered without the warning iff pos = 8*len; withheld when "
+             "bad packets are excluded), overread_flagged. Tied to the code by definitions with fixed and length-dependent layouts "
+             "(negative adjustments included) x short/exact/long packets, with an oracle that recomputes the consumed width from "
+             "the definition and the decoded values.",
+        design="§7 C14", technique="Lean 4 proof (per-field cursor lemma lifted over the flattened entry list) + correspondence check"),
 }
 
 NOT_YET = "check not built yet (work in progress; see DESIGN.md §11 build order)"
